@@ -157,11 +157,13 @@ resume).**  In any reachable state, for any stream with log `L` that no exchange
 with a previously issued `Last-Event-ID = (sid, idx)` on a healthy connection opens an exchange that is
 delivered exactly `L[idx+1 …]` — every entry after the resume point, each once, in order, with its log
 position as id — no matter when those entries were written (live, while detached, or after the stream
-completed and was deleted). -/
+completed and was deleted) — provided the store has not evicted the entry right after the resume point
+(`purged sid ≤ idx + 1`; otherwise see `resume_after_purge_reports_not_silently_skips`). -/
 theorem writes_while_detached_are_replayed (cfg : Cfg) (hst : cfg.hasStore = true) (ls : List (Label α))
     (hsc : InScopeRun (init cfg) ls) (sid idx : Nat) (ver : Ver) (log : List (Option (Item α)))
     (hlog : (run (init cfg) ls).store sid = some log) (hidx : idx < log.length)
     (hdone : (run (init cfg) ls).isDone = false)
+    (hnp : (run (init cfg) ls).purged sid ≤ idx + 1)
     (hfree : (findStream sid (run (init cfg) ls).streams).bind (·.attached) = none) :
     ∃ e, (get (run (init cfg) ls) (.ok sid idx) ver none).exs[(run (init cfg) ls).exs.length]? = some e ∧
       e.stream = sid ∧ e.from = idx + 1 ∧ e.lost = [] ∧
@@ -188,7 +190,8 @@ theorem writes_while_detached_are_replayed (cfg : Cfg) (hst : cfg.hasStore = tru
     rw [if_neg (by intro h; cases h)]
     simp only [Hdr.has, Hdr.sid, Hdr.from, hcs, Bool.not_true, Bool.and_false]
     rw [hfree]
-    simp [replayItems, hcs, hdone, hlog]
+    have hnp' : ¬ idx + 1 < c.purged sid := by omega
+    simp [replayItems, hcs, hdone, hlog, hnp']
   rw [hget]
   obtain ⟨gs, gst, gn, _, _, _, _, glen, gold, _⟩ := getOpen_frame c sid (idx + 1) none
   obtain ⟨e0, ge0, ges, gef, gno, _⟩ := getOpen_new c sid (idx + 1) none
@@ -297,17 +300,17 @@ theorem final_response_retained (cfg : Cfg) (hst : cfg.hasStore = true) (ls : Li
   · obtain ⟨k, hk⟩ := List.getElem?_of_mem hmem
     exact ⟨k, p, ctx, by simp [Conn.log, hlog, hk]⟩
 
-/-- … and a resume from any earlier issued id delivers it: the end-to-end form of `final_response_retained`. -/
+/-- … and a resume from any earlier issued id that the store has not evicted delivers it: the end-to-end form of `final_response_retained`. -/
 theorem final_response_replayed (cfg : Cfg) (hst : cfg.hasStore = true) (ls : List (Label α)) (hsc : InScopeRun (init cfg) ls)
     (sid : Nat) (calls : List Nat) (li : Bool) (hh : (run (init cfg) ls).hist sid = some (calls, li)) (r : Nat) (hr : r ∈ calls)
     (hgone : ∀ s ∈ (run (init cfg) ls).streams, s.id ≠ sid) (hdone : (run (init cfg) ls).isDone = false) :
-    ∃ (k : Nat) (p : α) (ctx : Option Nat), ∀ (idx : Nat) (ver : Ver), idx < k →
+    ∃ (k : Nat) (p : α) (ctx : Option Nat), ∀ (idx : Nat) (ver : Ver), idx < k → (run (init cfg) ls).purged sid ≤ idx + 1 →
       ∃ e, (get (run (init cfg) ls) (.ok sid idx) ver none).exs[(run (init cfg) ls).exs.length]? = some e ∧
         Out.message (some (sid, k)) ⟨.resp r p, ctx⟩ ∈ e.out := by
   obtain ⟨k, p, ctx, hk⟩ := final_response_retained cfg hst ls hsc sid calls li hh r hr
     (fun s hs hid => absurd hid (hgone s hs))
   refine ⟨k, p, ctx, ?_⟩
-  intro idx ver hidx
+  intro idx ver hidx hnp
   cases hl : (run (init cfg) ls).store sid with
   | none => simp [Conn.log, hl] at hk
   | some log =>
@@ -320,7 +323,7 @@ theorem final_response_replayed (cfg : Cfg) (hst : cfg.hasStore = true) (ls : Li
       cases hf : findStream sid (run (init cfg) ls).streams with
       | none => rfl
       | some s => exact absurd (findStream_some hf).2 (hgone s (findStream_some hf).1)
-    obtain ⟨e, he, _, _, _, hlen, hpt⟩ := writes_while_detached_are_replayed cfg hst ls hsc sid idx ver log hl (by omega) hdone hfree
+    obtain ⟨e, he, _, _, _, hlen, hpt⟩ := writes_while_detached_are_replayed cfg hst ls hsc sid idx ver log hl (by omega) hdone hnp hfree
     refine ⟨e, he, ?_⟩
     have hlt : k - (idx + 1) < (events e.out).length := by rw [hlen]; omega
     obtain ⟨x, hx, ho⟩ := hpt (k - (idx + 1)) _ (List.getElem?_eq_getElem hlt)
@@ -532,19 +535,74 @@ theorem duplicate_inflight_id_refused_atomically (c : Conn α) (calls : List Nat
     · rw [hl]; rfl
 
 /-- … and while the session is open, "still registered" is the same as "in flight": a request id is in
-`requestStreams` exactly when it is outstanding on a registered stream. -/
-theorem registered_iff_inflight (cfg : Cfg) (ls : List (Label α)) (hopen : (run (init cfg) ls).isDone = false) (r : Nat) :
+`requestStreams` exactly when it is outstanding on a registered stream — except in the window of a response that
+has been routed (its entry removed) but not yet delivered (`RespPending`: the request is still outstanding on its
+stream until the delivery section runs). -/
+theorem registered_iff_inflight (cfg : Cfg) (ls : List (Label α)) (hopen : (run (init cfg) ls).isDone = false) (r : Nat)
+    (hnp : ∀ sid, ¬ RespPending (run (init cfg) ls) r sid) :
     (∃ s ∈ (run (init cfg) ls).streams, r ∈ s.requests) ↔ ((run (init cfg : Conn α) ls).reqStreams r).isSome := by
   have h := invReg_run cfg ls
   constructor
   · rintro ⟨s, hs, hr⟩
-    rw [h.live hopen s hs r hr]; rfl
+    rcases h.live hopen s hs r hr with hl | hp
+    · rw [hl]; rfl
+    · exact absurd hp (hnp s.id)
   · intro hsome
     cases hc : (run (init cfg : Conn α) ls).reqStreams r with
     | none => rw [hc] at hsome; cases hsome
     | some sid =>
       obtain ⟨s, hs, _, hm⟩ := h.reg r sid hc
       exact ⟨s, hs, hm⟩
+
+/-- **C02/C10 (an undeliverable response frees its id as well).**  Whatever becomes of the response — delivered, stored
+only, or dropped as undeliverable (`rejected`: POST exchange gone and no event store; `broken`: session closed) — the
+request's routing entry is gone after the write, so a later call may carry the id again. -/
+theorem undeliverable_response_unregisters (c : Conn α) (r : Nat) (p : α) (ctx : Option Nat) (ctxNew : Bool) :
+    ((writeR c (.resp r p) ctx ctxNew).2 = .rejected ∨ (writeR c (.resp r p) ctx ctxNew).2 = .broken →
+      (writeR c (.resp r p) ctx ctxNew).1.reqStreams r = none) ∧
+    (wrouteR c (.resp r p) ctx ctxNew).1.reqStreams r = none ∧
+    ∀ i, (wdeliverR c i).1.reqStreams = c.reqStreams := by
+  refine ⟨fun _ => response_unregisters c r p ctx ctxNew, ?_, ?_⟩
+  · unfold wrouteR
+    rw [if_neg (by simp [Msg.isCall])]
+    split
+    · simp [eraseResp]
+    · split <;> simp [eraseResp]
+  · intro i
+    unfold wdeliverR
+    split
+    · rfl
+    · split
+      · simp [writeTo]
+      · simp [orphanWrite]
+
+/-- the routing section of a response removes the routing entry of its request at once -/
+theorem response_unregisters_at_routing (c : Conn α) (r : Nat) (p : α) (ctx : Option Nat) (ctxNew : Bool) :
+    (wrouteR c (.resp r p) ctx ctxNew).1.reqStreams r = none := by
+  unfold wrouteR
+  rw [if_neg (by simp [Msg.isCall])]
+  split
+  · simp [eraseResp]
+  · split <;> simp [eraseResp]
+
+/-- … and from then on traffic written with the context of `r` is rejected by the routing section: nothing is left
+pending, no exchange, no stream and no log changes -/
+theorem after_response_routing_rejects (c : Conn α) (hj : c.cfg.jsonResponse = false) (r : Nat)
+    (hreg : c.reqStreams r = none) (msg : Msg α) (hnr : ∀ r' p, msg ≠ .resp r' p) (ctxNew : Bool) :
+    wrouteR c msg (some r) ctxNew = (c, .rejected) := by
+  unfold wrouteR
+  split
+  · rfl
+  · have hroute : route c msg (some r) = none := by
+      cases msg with
+      | resp r' p => exact absurd rfl (hnr r' p)
+      | notif p => simp [route, related, hj, hreg]
+      | call p => simp [route, related, hj, hreg]
+    rw [hroute]
+    cases msg with
+    | resp r' p => exact absurd rfl (hnr r' p)
+    | notif p => rfl
+    | call p => rfl
 
 /-! ## the regenerated constants the model depends on -/
 
